@@ -7,6 +7,7 @@ import MotoModel.Model.DiskCli
 import MotoModel.Spec.Dos
 import MotoModel.Model.Basic
 import MotoModel.Spec.BasicRef
+import MotoModel.Model.Argparse
 open Moto
 
 def hexVal (c : Char) : Nat :=
@@ -76,8 +77,30 @@ def tapeModelled (tape : Bytes) : Bool :=
   (Tape.readAll tape).all fun raw =>
     !(raw.getD 0 1 == Gen.Tape.typeLeader) || (slice raw 2 13).all (· < 128)
 
+def showVal : Argparse.Val → String
+  | .none => "N"
+  | .bool b => if b then "T" else "F"
+  | .str s => "S" ++ cp s
+  | .int i => "I" ++ toString i
+  | .list l => "L" ++ "/".intercalate (l.map cp)
+
+/-- `help` | `error` | `ok dest=value;… | extras` (destinations sorted by the harness) -/
+def showArgOut : Argparse.Out → String
+  | .help => "help"
+  | .error => "error"
+  | .ok ns extras => "ok " ++ ";".intercalate (ns.map fun (k, v) => cp k ++ "=" ++ showVal v) ++ " | " ++ "/".intercalate (extras.map cp)
+
 def handle (args : List String) : String :=
   match args with
+  | "argv.parse" :: tool :: level :: rest =>
+    (match Gen.Cli.tools.find? (fun t => t.name == uncp tool) with
+     | none => "bad-tool"
+     | some t =>
+       let argv := rest.map uncp
+       -- outside the modelled domain: code points beyond ASCII or control characters (Unicode digits, white space and
+       -- upper-casing are Python's), a parser shape the sequential match is not exact for
+       if argv.any (fun a => a.any (fun c => c < 32 || c > 126)) || !Argparse.wellShaped t then "unmodelled"
+       else showArgOut (if level == "known" then Argparse.parseKnown t argv else Argparse.cliParse t argv))
   | ["ping"] => "pong"
   | "spec.nl" :: s :: i :: w :: files =>
       ";".intercalate ((Spec.specNl s.toNat! i.toNat! w.toNat! none ((files.map uncp).flatMap readlines)).map cp)
